@@ -24,6 +24,7 @@ type profile struct {
 	dupVersions                                              bool  // batches may write the same key@version twice
 	valLen                                                   int   // > 0: values of about this length (fills tables faster)
 	tableSize                                                int64 // > 0: fixed BaseTableSize
+	prefixSince                                              bool  // Prefix iterators use SinceTs half of the time
 	finalCompact                                             bool  // flush and compact everything at the end, then scan all versions
 }
 
@@ -153,7 +154,7 @@ func runHistory(c *Ctx, p *profile) (*hist, error) {
 				o.Prefix = c.pickKey(p)
 				seek = nil
 			}
-			if p.since && c.Rng.Intn(5) == 0 {
+			if p.since && (c.Rng.Intn(5) == 0 || (p.prefixSince && len(o.Prefix) > 0 && c.Rng.Intn(2) == 0)) {
 				o.Since = uint64(c.Rng.Intn(int(h.db.VerifNextTs()) + 1))
 			}
 			h.iterate(t, o, seek)
